@@ -31,12 +31,46 @@ func (req *SrvReq) answered() bool {
 	return req.status&reqResponded != 0
 }
 
+// fitError shortens the text of an error that would not fit the request's
+// reply buffer (a small negotiated msize), so that an Rerror can always be
+// packed: otherwise nothing is packed and the stale or empty buffer is what
+// goes out on the wire.
+func (req *SrvReq) fitError(err interface{}) interface{} {
+	var text string
+	num := uint32(EIO)
+	switch e := err.(type) {
+	case *Error:
+		if e == nil {
+			return err
+		}
+		text, num = e.Err, e.Errornum
+	case error:
+		text = e.Error()
+	default:
+		text = fmt.Sprintf("%v", e)
+	}
+
+	room := len(req.Rc.Buf) - (4 + 1 + 2 + 2 + 4) /* size[4] id[1] tag[2] ename[s] ecode[4] */
+	if *Akaros {
+		room -= 5 /* "%04X " prefix */
+	}
+	if room < 0 {
+		room = 0
+	}
+	if len(text) <= room {
+		return err
+	}
+
+	return &Error{text[:room], num}
+}
+
 // Respond to the request with Rerror message
 func (req *SrvReq) RespondError(err interface{}) {
 	if req.answered() {
 		return
 	}
 
+	err = req.fitError(err)
 	switch e := err.(type) {
 	case *Error:
 		_ = PackRerror(req.Rc, e.Error(), uint32(e.Errornum), req.Conn.Dotu)
